@@ -21,6 +21,33 @@ class GaveUp(Exception):
     pass
 
 
+import contextlib
+import signal
+import threading
+
+
+@contextlib.contextmanager
+def time_limit(seconds):
+    """hard wall-clock limit for pure-Python algebra (sympy gcd can run for minutes inside one call)"""
+    if threading.current_thread() is not threading.main_thread() or seconds is None:
+        yield
+        return
+
+    def handler(signum, frame):
+        raise GaveUp("hard time limit (%.0fs) in the algebra back end" % seconds)
+
+    old = signal.signal(signal.SIGALRM, handler)
+    prev = signal.setitimer(signal.ITIMER_REAL, seconds)
+    try:
+        yield
+    finally:
+        signal.setitimer(signal.ITIMER_REAL, 0)
+        signal.signal(signal.SIGALRM, old)
+        if prev and prev[0] > 0:
+            # restore an outer limit (minus nothing: outer limits are coarse)
+            signal.setitimer(signal.ITIMER_REAL, prev[0])
+
+
 # ---------------------------------------------------------------- angle decomposition
 
 
@@ -62,6 +89,7 @@ class TrigRewriter:
     def __init__(self, roots):
         self.units = {}
         self.eunits = {}
+        self.side_conditions = []  # terms that must be non-zero for the rewriting to be valid
         coeffs, ecoeffs = {}, {}
         for t in tm.postorder(roots):
             if t.op == "f" and t.args[0] in ("cos", "sin", "tan"):
@@ -86,7 +114,10 @@ class TrigRewriter:
             return [(tm.ONE, tm.ZERO), (tm.ZERO, tm.ONE), (tm.const(-1), tm.ZERO), (tm.ZERO, tm.const(-1))][k]
         if u == 1 and a.op == "f" and a.args[0] == "atan2":
             y, x = a.args[1], a.args[2]
-            r = tm.sqrt_(tm.add(tm.mul(x, x), tm.mul(y, y)))
+            r2 = tm.add(tm.mul(x, x), tm.mul(y, y))
+            r = tm.sqrt_(r2)
+            if not any(r2 is c for c in self.side_conditions):
+                self.side_conditions.append(r2)  # atan2(0,0) = 0 is NOT x/r: needs x^2+y^2 != 0
             return tm.div(x, r), tm.div(y, r)
         if u == 1 and a.op == "f" and a.args[0] == "acos":
             x = a.args[1]
@@ -141,7 +172,7 @@ class TrigRewriter:
                 # decompose the ORIGINAL argument (so that units match), then rewrite inner atoms
                 c, s = self.cis(t.args[1])
                 c, s = self.rewrite([c, s])
-                memo[t.id] = {"cos": c, "sin": s}.get(t.args[0]) or tm.div(s, c)
+                memo[t.id] = c if t.args[0] == "cos" else (s if t.args[0] == "sin" else tm.div(s, c))
                 continue
             if t.op == "f" and t.args[0] == "exp":
                 e = self.exp(t.args[1])
@@ -163,10 +194,14 @@ def _lin_e(t):
 
 
 class Normaliser:
-    def __init__(self, roots, budget_s=120.0):
+    def __init__(self, roots, budget_s=120.0, rewrite_trig=True):
         self.t0 = time.time()
         self.budget = budget_s
-        roots = TrigRewriter(roots).rewrite(roots)
+        self.side_conditions = []
+        if rewrite_trig:
+            tr = TrigRewriter(roots)
+            roots = tr.rewrite(roots)
+            self.side_conditions = tr.side_conditions
         self.roots = roots
         order = tm.postorder(roots)
         self.atom_terms = []
@@ -280,10 +315,176 @@ def is_zero(term, budget_s=120.0):
     """-> (status, info dict)"""
     t0 = time.time()
     try:
+      with time_limit(budget_s):
         nz = Normaliser([term], budget_s)
         e = nz.elem[nz.roots[0].id]
         ok = nz.reduce_zero(e)
-        info = {"atoms": len(nz.atom_terms), "radicals": len(nz.radicals), "time_s": time.time() - t0}
+        info = {"atoms": len(nz.atom_terms), "radicals": len(nz.radicals), "time_s": time.time() - t0,
+                "side_conditions": nz.side_conditions}
         return ("zero" if ok else "nonzero"), info
     except GaveUp as ex:
         return "gaveup", {"reason": str(ex), "time_s": time.time() - t0}
+
+
+# ---------------------------------------------------------------- factor abstraction (for sign / definedness goals)
+
+
+def _gen_name(a):
+    if a.op == "v":
+        return a.args[0]
+    if a.op == "pi":
+        return "pi"
+    return "%s_%d" % ("sq" if a.op == "sqrt" else "fn", a.id)
+
+
+class FactorAbstraction:
+    """Rewrite every real comparison  a ~ b  in a list of formulas as a sign condition on the product of the
+    irreducible factors of the normal form of (a - b); each distinct factor becomes one fresh variable.
+    The abstraction is sound for validity: if the abstract implication holds for all values of the factor
+    variables, it holds for the concrete polynomials.  sqrt atoms are generators; their defining relations are
+    added as (abstracted) hypotheses by abstract_problem."""
+
+    def __init__(self, budget_s=60.0):
+        self.budget = budget_s
+        self.fvars = {}  # canonical sympy expr (as str) -> term var
+        self.t0 = time.time()
+
+    def fac_var(self, expr):
+        k = str(expr)
+        if k not in self.fvars:
+            self.fvars[k] = tm.var("fac!%d" % len(self.fvars))
+        return self.fvars[k]
+
+    def abstract_diff(self, diff_term):
+        """term (real, ite-free) -> abstract term with the same sign"""
+        import sympy
+
+        nz = Normaliser([diff_term], self.budget, rewrite_trig=False)
+        e = nz.elem[nz.roots[0].id]
+        if e == 0:
+            return tm.ZERO
+        num = e.numer.as_expr()
+        den = e.denom.as_expr()
+        names = {sympy.Symbol("g%d" % i): sympy.Symbol(_gen_name(a)) for i, a in enumerate(nz.atom_terms)}
+        out = tm.ONE
+        for poly, inverse in ((num, False), (den, True)):
+            c, facs = sympy.factor_list(poly)
+            cq = Fraction(int(sympy.Rational(c).p), int(sympy.Rational(c).q))
+            t = tm.const(cq)
+            for f, k in facs:
+                f = sympy.expand(f.subs(names))
+                P = sympy.Poly(f)
+                # canonical sign: leading coefficient (in sympy's deterministic generator order) positive
+                if P.LC() < 0:
+                    f = -f
+                    if k % 2:
+                        t = tm.neg(t)
+                v = self.fac_var(f)
+                t = tm.mul(t, tm.pow_(v, k))
+            out = tm.div(out, t) if inverse else tm.mul(out, t)
+            if time.time() - self.t0 > self.budget:
+                raise GaveUp("factor abstraction over budget")
+        return out
+
+    def abstract(self, formula):
+        memo = {}
+        for t in tm.postorder([formula]):
+            if t.sort != "B":
+                continue
+            if t.op in ("<", "<=", "=="):
+                a, b = t.args
+                new = None
+                try:
+                    d = self.abstract_diff(tm.add(a, tm.neg(b)))
+                    if d is not None:
+                        new = {"<": tm.lt, "<=": tm.le, "==": tm.eq}[t.op](d, tm.ZERO)
+                except GaveUp:
+                    new = None
+                memo[t.id] = new if new is not None else t
+            elif t.op in ("and", "or"):
+                memo[t.id] = (tm.and_ if t.op == "and" else tm.or_)(memo[t.args[0].id], memo[t.args[1].id])
+            elif t.op == "not":
+                memo[t.id] = tm.not_(memo[t.args[0].id])
+            else:
+                memo[t.id] = t
+        return memo[formula.id]
+
+
+def abstract_problem(hyps, goal, budget_s=30.0):
+    fa = FactorAbstraction(budget_s)
+    extra = []
+    for t in tm.postorder(list(hyps) + [goal]):
+        if t.op == "sqrt":
+            N = t.args[0]
+            extra.append(tm.implies(tm.le(tm.ZERO, N), tm.and_(tm.le(tm.ZERO, t), tm.eq(tm.mul(t, t), N))))
+    with time_limit(budget_s):
+        return [fa.abstract(h) for h in list(hyps) + extra], fa.abstract(goal), len(fa.fvars)
+
+
+# ---------------------------------------------------------------- shared-subterm abstraction
+
+
+def _linear_leaves(t, out):
+    """decompose t through + / neg / const* ; collect the non-linear leaves"""
+    if t.op == "+":
+        _linear_leaves(t.args[0], out)
+        _linear_leaves(t.args[1], out)
+    elif t.op == "neg":
+        _linear_leaves(t.args[0], out)
+    elif t.op == "*" and (t.args[0].op == "c" or t.args[1].op == "c"):
+        _linear_leaves(t.args[1] if t.args[0].op == "c" else t.args[0], out)
+    else:
+        out.append(t)
+
+
+def _poly_key(t, cache):
+    """canonical key of a polynomial/rational node over base atoms (None if not cheaply available)"""
+    if t.id in cache:
+        return cache[t.id]
+    key = None
+    try:
+        if tm.size([t]) <= 400 and not any(x.op in ("ite", "<", "<=", "==", "and", "or", "not") for x in tm.postorder([t])):
+            nz = Normaliser([t], 5.0, rewrite_trig=False)
+            e = nz.elem[nz.roots[0].id]
+            import sympy
+
+            names = {sympy.Symbol("g%d" % i): sympy.Symbol(_gen_name(a)) for i, a in enumerate(nz.atom_terms)}
+            key = str(sympy.expand(e.numer.as_expr().subs(names))) + " / " + str(sympy.expand(e.denom.as_expr().subs(names)))
+    except Exception:
+        key = None
+    cache[t.id] = key
+    return key
+
+
+def subterm_abstraction(hyps, goal, min_size=8):
+    """generalise: replace complex radicands / denominators / comparison-side summands by fresh variables
+    (the same variable for nodes with the same polynomial normal form).  Sound for validity."""
+    forms = list(hyps) + [goal]
+    cands = []
+    for t in tm.postorder(forms):
+        if t.op == "sqrt":
+            _linear_leaves(t.args[0], cands)
+        elif t.op == "/":
+            _linear_leaves(t.args[1], cands)
+        elif t.op in ("<", "<=", "=="):
+            _linear_leaves(t.args[0], cands)
+            _linear_leaves(t.args[1], cands)
+    cache = {}
+    fresh = {}
+    mapping = {}
+    extra = []
+    for c in cands:
+        if c.op in ("c", "v", "pi", "sqrt", "f", "ite") or c.id in {k.id for k in mapping}:
+            continue
+        if tm.size([c]) < min_size:
+            continue
+        key = _poly_key(c, cache) or ("id%d" % c.id)
+        if key not in fresh:
+            fresh[key] = tm.var("abs!%d" % len(fresh))
+            if c.op == "*" and c.args[0] is c.args[1]:
+                extra.append(tm.le(tm.ZERO, fresh[key]))
+        mapping[c] = fresh[key]
+    if not mapping:
+        return None
+    new = tm.subst(forms, mapping)
+    return new[:-1] + extra, new[-1], len(fresh)
